@@ -3,6 +3,7 @@ package monitorh
 import (
 	"fmt"
 	"math/rand"
+	"strings"
 	"time"
 
 	"github.com/ovrclk/akash/manifest"
@@ -77,6 +78,9 @@ func newMonWorld(out *vcommon.Writer, run int, free bool) *monWorld {
 	w.bus = &recBus{Bus: pubsub.NewBus(), h: w.h}
 	route(w.h, w.lease.String())
 	cluster.VerifMonitorTimer = func(id string) <-chan time.Time {
+		if !strings.HasPrefix(id, w.lease.String()) {
+			return nil // a monitor of an earlier run that is still around keeps its real timer
+		}
 		ch := make(chan time.Time, 1)
 		w.h.mu.Lock()
 		w.timer, w.fired = ch, false
